@@ -347,6 +347,39 @@ def w_roland_big(pid, tier, seed, job):
     return ctx.dump()
 
 
+def w_two_partitions(pid, tier, seed, job):
+    """the byte stream over a resolved chain yields THOSE sectors of THAT partition: images with two or three partitions of the
+    same layout and different contents, chains fragmented differently, two images in one process"""
+    import struct
+    import akai_writer as AW
+    import runner as R
+    ctx = F.Ctx(pid, tier, seed)
+    rng = random.Random(job)
+    for rep in range(2):
+        parts, allocs, exp = [], [], {}
+        for pi in range(rng.randint(2, 3)):
+            nw = rng.choice([3 * 4096 - 70 - 5, 2 * 4096 + 300, 9000])
+            pcm = struct.pack("<%dH" % nw, *[(pi * 20011 + rep * 977 + 7 * w) % 65536 for w in range(nw)])
+            f = AW.SampleFile(name="SMP", pcm=pcm)
+            parts.append(AW.Partition([AW.Volume("VOL", [f])], size_sectors=40))
+            order = [lambda fr, n: fr[:n], lambda fr, n: list(reversed(fr[:n])), lambda fr, n: [fr[0]] + list(reversed(fr[1:n]))][(pi + rep) % 3]
+            allocs.append(AW.Allocator(40, order))
+            exp["%s/VOL/SMP.wav" % chr(65 + pi)] = pcm
+        img = AW.image_bytes(parts, allocs)
+        with R.TempImage(img) as path:
+            r, tree, reported = R.export(path)
+        case = {"two_partitions": True, "seed": job, "image": rep, "chains": [p.volumes[0].files[0].sectors for p in parts]}
+        ctx.count("partition_streams", (job, rep), nontrivial=True)
+        if not ctx.require("export of a multi-partition image finishes", case, r.exc is None and sorted(tree) == sorted(exp), (r.exc_name, sorted(tree))):
+            continue
+        for pth, pcm in exp.items():
+            w = R.parse_wav(tree[pth])
+            ctx.require("byte stream over the chain yields the concatenation of those sectors (of the file's own partition)", dict(case, file=pth),
+                        w["ok"] and w["data"] == pcm, {"len": len(w.get("data", b"")), "expected": len(pcm),
+                                                        "first_diff": next((i for i, (a, b) in enumerate(zip(w.get("data", b""), pcm)) if a != b), None)})
+    return ctx.dump()
+
+
 # ---------------------------------------------------------------------------- driver
 def chunks(it, n):
     buf = []
@@ -411,6 +444,7 @@ def w_stream(pid, tier, seed, job):
 def run(ctx):
     rng = ctx.rng
     F.pmap(ctx, w_stream, [ctx.seed * 53 + i for i in range(8 if ctx.quick else 32)])
+    F.pmap(ctx, w_two_partitions, [ctx.seed * 59 + i for i in range(4 if ctx.quick else 24)])
     # get_path: exhaustive n <= 3 (quick) / 4 (thorough)
     nmax = 3 if ctx.quick else 4
     jobs = []
